@@ -1143,10 +1143,32 @@ pub(crate) fn convert_try_mac(
     let path = &pprust::path_to_string(&mac.path);
     if path == "try" || path == "r#try" {
         let ts = mac.args.tokens.clone();
+        let expr = parse_expr(context, ts)?;
+        // `?` binds more tightly than any prefix or binary operator: `try!(x + y)` is not
+        // `x + y?`. Only an operand that needs no parentheses is converted.
+        if !matches!(
+            expr.kind,
+            ast::ExprKind::Array(..)
+                | ast::ExprKind::Call(..)
+                | ast::ExprKind::MethodCall(..)
+                | ast::ExprKind::Tup(..)
+                | ast::ExprKind::Lit(..)
+                | ast::ExprKind::Field(..)
+                | ast::ExprKind::Index(..)
+                | ast::ExprKind::Path(..)
+                | ast::ExprKind::Paren(..)
+                | ast::ExprKind::Try(..)
+                | ast::ExprKind::Await(..)
+                | ast::ExprKind::MacCall(..)
+                | ast::ExprKind::Struct(..)
+                | ast::ExprKind::Repeat(..)
+        ) {
+            return None;
+        }
 
         Some(ast::Expr {
             id: ast::NodeId::root(), // dummy value
-            kind: ast::ExprKind::Try(parse_expr(context, ts)?),
+            kind: ast::ExprKind::Try(expr),
             span: mac.span(), // incorrect span, but shouldn't matter too much
             attrs: ast::AttrVec::new(),
             tokens: None,
